@@ -277,8 +277,18 @@ func (r *runner) oneFlight(round, k int, tm *tampered, txs types.Txs, subs []*se
 		return false
 	}
 
+	bst := &lookState{}
 	verify := func(stage string) bool {
-		nb, _, accepted, err := w.checkOn(w.R, blk)
+		nb, _, accepted, err := w.checkOnLooks(w.R, blk, func(nb *types.Block) {
+			o := nb.Data.Txs[len(nb.Data.Txs)-1]
+			if pos >= 0 {
+				o = nb.Data.Txs[pos]
+			}
+			r.history(fmt.Sprintf("block at height %d as received (%s)", blk.Height, stage), w.R, o, tm.src.kind, tm.name, tm.v, tm, bst, false)
+		})
+		if r.stop {
+			return false
+		}
 		if err != nil {
 			c.Probe("flight-block-undecodable")
 			return false
@@ -312,6 +322,12 @@ func (r *runner) oneFlight(round, k int, tm *tampered, txs types.Txs, subs []*se
 		at = parkNone
 	}
 
+	// the pool's object has a history of its own before it is submitted
+	pst := &lookState{}
+	r.history("replica (object about to be submitted to the pool)", w.R, poolObj, tm.src.kind, tm.name, tm.v, tm, pst, false)
+	if r.stop {
+		return true
+	}
 	f := r.launch(poolObj, at)
 	parked, done := f.state()
 	switch {
@@ -359,6 +375,8 @@ func (r *runner) oneFlight(round, k int, tm *tampered, txs types.Txs, subs []*se
 			rec.Basic = "refused"
 		}
 	}
+	pst.trail = append(pst.trail, "AddTx")
+	r.fromLook("replica mempool (submission interleaved with block verification), after the submission", tm.src.kind, tm.name, tm.v, poolObj, tm, pst)
 	if aerr == nil && !r.stop {
 		// the pool took the forgery
 		r.judgeAccept("replica mempool (submission interleaved with block verification)", tm.src.kind, tm.name, tm.v, poolObj, tm)
